@@ -446,7 +446,21 @@ MALFORMED_RECIPE = [
 ]
 
 
+def gen_time_freq_date_start(rng, kind):
+    d = rand_day(rng)
+    f = rng.choice(FREQS[4:])
+    kw = [["freq", L("str", rng.choice([f, f.lower(), f.capitalize()]))],
+          ["start_date", lit_date(d) if rng.random() < 0.5 else L("str", d.isoformat())],
+          ["count", L("int", rng.choice([2, 3, 5]))]]
+    if kind == "direct":
+        return {"kind": "direct", "kw": kw, "n": 2}
+    return {"kind": "recipe", "kw": kw, "malformed": "freq/start_date",
+            "mode": "for_each" if rng.random() < 0.3 else {"count": 2}}
+
+
 def gen_malformed_recipe(rng):
+    if rng.random() < 0.12:
+        return gen_time_freq_date_start(rng, "recipe")
     mode = "for_each" if rng.random() < 0.3 else "count"
     for _ in range(20):
         kw, _ = gen_event_kw(rng, 0, mode)
@@ -607,11 +621,13 @@ def generate(rng, tier):
     for key in INT_KEYS + ["byweekday", "interval", "count", "cache", "until"]:
         for _ in range(3 if nq else 40):
             cases.append(gen_direct_single(rng, key))
-    for _ in range(500 if nq else 14000):
+    for _ in range(900 if nq else 14000):
         cases.append({"kind": "direct", "kw": gen_direct_kw(rng), "n": 2})
-    for _ in range(420 if nq else 12000):
+    for _ in range(12 if nq else 200):
+        cases.append(gen_time_freq_date_start(rng, "direct"))
+    for _ in range(800 if nq else 12000):
         cases.append(gen_recipe_case(rng))
-    for _ in range(70 if nq else 1500):
+    for _ in range(120 if nq else 1500):
         cases.append(gen_malformed_recipe(rng))
     # single documented by-keyword with a plain UTC datetime start, every keyword, both modes
     for key in DOC_INT_KEYS:
@@ -968,6 +984,8 @@ def _run_recipe(case, S, mock):
     obs["engine_err"] = state["engine_err"]
     obs["n_sets"] = len(state["sets"])
     n_events = sum(1 for _ in walk_events(case["kw"]))
+    if not obs.get("ok") and state["sets"] and len(state["sets"]) == n_events:
+        obs["stream"] = [enc_dt(x) for x in state["sets"][-1]._sfv["yielded"][:FOR_EACH_CAP + 1]]
     if obs.get("ok") and state["sets"]:
         top = state["sets"][-1]
         obs["tree"] = enc_set(top)
@@ -1455,18 +1473,15 @@ def coq_case(case, obs):
         stream = C.clist(c_dt(d) for d in obs.get("stream", []))
         exp = f"(XOk {c_tree(obs['tree'])} {C.clist(c_value(v) for v in obs['values'])})"
     else:
-        stream = "[]"
+        # (a run that fails after the rule was built: the engine's short output is what makes the
+        #  model answer "Could not generate enough values")
+        stream = C.clist(c_dt(d) for d in obs.get("stream", []))
         if direct:
             exp = f"(XErr {C.cerr(obs['err'])})"
         elif obs.get("engine_err"):
             exp = "XEngine"
         else:
-            # "not enough values": the model needs the engine's (short) output; take it from the reference
-            ref = (obs.get("ref") or {}).get("", {})
-            if "not_enough" in ref or any("not_enough" in r for r in (obs.get("ref") or {}).values()):
-                exp = "XEngine"
-            else:
-                exp = "XErrAny"
+            exp = "XErrAny"
     return (f"CEvent {via} {memo} {parse_table(case)} {now_t} {c_kw(case['kw'])} {mode} {stream} {exp}")
 
 
@@ -1572,6 +1587,10 @@ def _oracle_direct(case, obs):
     # precision rule on the stand-in engine's two values
     sd = kwget(case["kw"], "start_date")
     vals = obs.get("values") or []
+    fq = kwget(case["kw"], "freq")
+    if sd is not None and (sd["t"] == "date" or (sd["t"] == "str" and _is_date_only(sd["v"]))) and \
+            fq is not None and fq["t"] == "str" and fq["v"].upper() in FREQS[4:]:
+        return f"precision: frequency {fq['v']} was accepted with the date-precision start {sd}"
     if sd is not None and len(vals) == 2:
         want_date = sd["t"] == "date" or (sd["t"] == "str" and _is_date_only(sd["v"]))
         if sd["t"] in ("date", "dt") or (sd["t"] == "str" and sd["v"]):
@@ -1642,9 +1661,10 @@ def stats(cases, obss):
 
 def shrink(case):
     kw = case["kw"]
+    keep = ("freq", "start_date") + (("count", "until") if case.get("mode") == "for_each" else ())
     for i, (k, v) in enumerate(kw):
-        if k in ("freq", "start_date"):
-            continue
+        if k in keep:
+            continue        # (an unbounded for_each never finishes: not a smaller witness)
         yield dict(case, kw=kw[:i] + kw[i + 1:])
     for i, (k, v) in enumerate(kw):
         if v["t"] == "seq" and v["v"]:
